@@ -128,6 +128,8 @@ def build(tape, prop, tier):
         if default is not None:
             default["interest_symbol"] = tape.choice(["same", QUOTE])
         s["lend"] = dict(default=default, per_symbol=conds, refuse_after=(tape.int(0, 6) if tape.chance(0.25) else None))
+        s["reuse_lender"] = tape.chance(0.15)
+        s["offgrid_loans"] = prop in ("C01", "C02", "C07", "C11", "C10") and tape.chance(0.2)
     else:
         s["lend"] = None
     init = {}
@@ -138,6 +140,11 @@ def build(tape, prop, tier):
         for b in bases:
             if tape.chance(0.45):
                 init[b] = str(D(tape.int(0, 50000)).scaleb(-3).quantize(D(1).scaleb(-prec[b])))
+    # balances with more decimals than the symbol precision are legal input (C01/C02 do not exclude them)
+    s["offgrid_init"] = prop in ("C01", "C02") and bool(init) and tape.chance(0.12)
+    if s["offgrid_init"]:
+        for sym in list(init):
+            init[sym] = str(D(init[sym]) + D(tape.int(1, 9)).scaleb(-(prec[sym] + 1)))
     s["init"] = init
     s["maxc"] = tape.choice([50, 1, 2, 3, npairs, 1])
     s["sub_first"] = tape.chance(0.5)           # subscribe_to_bar_events before add_bar_source
@@ -202,4 +209,49 @@ def build(tape, prop, tier):
     s["scripts"] = scripts
     s["nosusp"] = nosusp
     s["long"] = long_run
+    # ---- motifs: rare multi-step shapes that uniform sampling almost never assembles
+    s["motif"] = None
+    if prop in ("C07", "C11", "C01", "C02", "C06", "C05") and tape.chance(0.22):
+        s["motif"] = tape.choice(["twoloan", "arwindow"])
+        apply_motif(s, tape)
     return s
+
+
+def order_op(**kw):
+    op = dict(kind="order", yields=0, sleep=0, otype="market", side="sell", pair=0, same_pair=True, amt_kind="small",
+              amt=0, lim=4, stp=4, fine=2, ab=False, ar=False)
+    op.update(kw)
+    return op
+
+
+def apply_motif(s, tape):
+    qp = s["prec"][QUOTE]
+    cond = dict(interest_symbol=QUOTE, interest_percentage="0", interest_period=86400, min_interest="0",
+                margin_requirement="0")
+    if s["motif"] == "twoloan":
+        # an auto-borrow sell whose minimum fee exceeds its proceeds is short in base AND quote: two loans; the lender
+        # refuses the second one (an Error that is not NotEnoughBalance) after the first was granted
+        s["fee"] = dict(kind="pctmin", pct="0.5", min=str(D(20 + tape.draw(50))))
+        s["lend"] = dict(default=dict(cond), per_symbol={}, refuse_after=1)
+        s["init"] = {QUOTE: str(D(tape.int(0, 3)).quantize(D(1).scaleb(-qp)))}
+        s["offgrid_init"] = False
+        first = order_op(otype=tape.choice(["limit", "market", "stoplimit"]), side="sell", amt_kind="small",
+                         amt=tape.draw(20), ab=True, ar=tape.chance(0.5), lim=tape.draw(9))
+        s["scripts"]["bar:0:0"] = [first] + s["scripts"].get("bar:0:0", [])
+    else:
+        # a loan in the quote symbol whose minimum interest is large, then an auto-repay sell whose proceeds fall short
+        # of principal + interest: the repayment attempted when the order closes (fill or cancel) must fail cleanly
+        s["fee"] = dict(kind="none", pct="0", min="0")
+        c = dict(cond, min_interest=str(100 + tape.draw(400)))
+        s["lend"] = dict(default=c, per_symbol={}, refuse_after=None)
+        s["liq"] = dict(kind=tape.choice(["vs", "inf"]), limit="25", impact="0")
+        s["init"] = {s["bases"][0]: str(D(10 + tape.draw(50)).quantize(D(1).scaleb(-s["prec"][s["bases"][0]])))}
+        s["offgrid_init"] = False
+        loan = dict(kind="loan", yields=0, sleep=0, sym=0, amt_kind="mid", amt=tape.draw(1000))
+        sell = order_op(otype=tape.choice(["limit", "market"]), side="sell", amt_kind="small", amt=tape.draw(300), ar=True,
+                        lim=tape.draw(4))
+        cancel = dict(kind="cancel", yields=0, sleep=0, which="open", k=0)
+        s["scripts"]["bar:0:0"] = [loan] + s["scripts"].get("bar:0:0", [])
+        s["scripts"]["bar:0:1"] = [sell] + s["scripts"].get("bar:0:1", [])
+        k = 2 + tape.draw(3)
+        s["scripts"][f"bar:0:{k}"] = [cancel] + s["scripts"].get(f"bar:0:{k}", [])
